@@ -162,11 +162,11 @@ func (fr *Frame) eval(st *State, x ast.Expr) *Term {
 		if isNilIdent(x.X) {
 			b = fr.eval(st, x.Y)
 			a = fr.nilOf(st, rt, b)
-			return fr.nilCmp(x.Op, b, a, rt, x)
+			return fr.nilCmp(st, x.Op, b, a, rt, x)
 		} else if isNilIdent(x.Y) {
 			a = fr.eval(st, x.X)
 			b = fr.nilOf(st, lt, a)
-			return fr.nilCmp(x.Op, a, b, lt, x)
+			return fr.nilCmp(st, x.Op, a, b, lt, x)
 		}
 		a = fr.eval(st, x.X)
 		b = fr.eval(st, x.Y)
@@ -229,16 +229,20 @@ func (fr *Frame) nilOf(st *State, t types.Type, like *Term) *Term {
 	return fr.e.zeroValue(t)
 }
 
-func (fr *Frame) nilCmp(op token.Token, v, nilv *Term, t types.Type, n ast.Node) *Term {
-	var isNil *Term
+func (fr *Frame) nilCmp(st *State, op token.Token, v, nilv *Term, t types.Type, n ast.Node) *Term {
+	var isNil, nilAx *Term
 	switch t.Underlying().(type) {
 	case *types.Slice:
 		isNil = Eq(Acc(v, "len"), IntLit(0))
 		fr.e.note("assumption: `slice == nil` is modelled as len == 0")
 	case *types.Map:
 		isNil = fr.e.isNilMap(v)
+		nilAx = Implies(isNil, And(Eq(Acc(v, "dom"), ConstArr(v.S.Fields[1].S, False)), Eq(Acc(v, "card"), IntLit(0))))
 	default:
 		isNil = Eq(v, IntLit(0))
+	}
+	if nilAx != nil && st != nil {
+		st.Assume(nilAx)
 	}
 	if op == token.EQL {
 		return isNil
